@@ -99,6 +99,19 @@ def cases(rng, tier):
     N = 120 if tier == "quick" else 1500
     for p in _family_every_gate():
         yield ("find_cuts", p)
+    # backjump limits that actually run out (0, 1, 2, 3) on small circuits whose greedy warm start is not optimal: the state popped when the limit is
+    # hit must stay in the frontier, so the flag may only be set when the reported overhead is the minimum
+    small = [(3, [("cx", 2, 0), ("swap", 1, 0)]), (4, [("swap", 2, 1), ("cx", 3, 2), ("swap", 2, 0), ("swap", 3, 2)]),
+             (3, [("swap", 0, 1), ("cx", 1, 2), ("cx", 0, 1)]), (4, [("cx", 0, 1), ("swap", 1, 2), ("cx", 2, 3), ("swap", 0, 3)])]
+    for nq_, gl in small:
+        for bj in (0, 1, 2, 3):
+            for glo, wlo in ((True, False), (True, True)):
+                for sd in (0, 1):
+                    yield ("find_cuts", {"nq": nq_, "instrs": [{"name": n_, "qubits": [a_, b_]} for n_, a_, b_ in gl], "seed": sd, "max_gamma": 1e6,
+                                         "max_backjumps": bj, "gate_lo": glo, "wire_lo": wlo, "width": 2, "exact": True, "always_oracle": True})
+    # gamma limits that admit fewer cuts than the circuit needs (the wire budget of the search must come from the greedy incumbent, not from the limit)
+    for p in cutfind.family_tight_gamma():
+        yield ("find_cuts", p)
     # deterministic families (independent of the seed, oracle always run): unrestricted searches whose greedy warm start contains wire cuts while
     # the optimum lies between that answer's entangled-pair (LOCC) cost and its LO cost; circuits on several quantum registers
     for p in cutfind.family_bound_gap() + cutfind.family_registers():
